@@ -420,7 +420,7 @@ def ins_case(item):
 
 def run(ctx):
     seed = ctx.seed
-    std_targets = ["init", 5, 21, 23, "fin"] if ctx.quick else ["init", 1, 5, 20, 21, 22, 23, 30, 45, "fin"]
+    std_targets = ["init", 5, 21, 23, 25, "fin"] if ctx.quick else ["init", 1, 5, 20, 21, 22, 23, 25, 30, 45, 50, "fin"]
     ins_targets = ["init", 1, "fin"] if ctx.quick else ["init", 0, 1, 2, "fin"]
     # counting runs
     count_items = [("std", (seed, t, None, signal.SIGTERM, False)) for t in std_targets] + [("ins", (seed, t, None, signal.SIGTERM, False)) for t in ins_targets]
